@@ -776,6 +776,15 @@ fn client(o: &Opts, out: &mut Out, run: &mut u64) {
                 let after = storage_dump(cl.as_ref(), &[c1], &watch_assets);
                 let kinds: Vec<String> = cl.receipts().unwrap_or_default().iter().map(|r| receipt_json(r)["kind"].as_str().unwrap().to_string()).collect();
                 out.ev(json!({"ev": "ClientTx", "run": *run, "reverted": rev, "before": before, "after": after, "kinds": kinds}));
+                // the SAME client next executes the script `ret $one`: whatever the previous transaction left behind (it may have
+                // ended inside the called contract), the outcome is [Return(1), ScriptResult(Success)]
+                let w0 = World { params: params.clone(), gas_price: 0, storage: tb.get_storage().clone(), block_height: u32::from(tb.get_block_height()) };
+                if let Ok(next) = simple_script(&w0, &mut rng, asm(vec![op::ret(RegId::ONE)]), vec![], 10_000) {
+                    match catch(std::panic::AssertUnwindSafe(|| cl.transact(next).iter().map(receipt_json).collect::<Vec<_>>())) {
+                        Ok(rc) => out.ev(json!({"ev": "ClientFollow", "run": *run, "after_kinds": kinds, "rc": rc})),
+                        Err(m) => out.ev(json!({"ev": "HostPanic", "where": "MemoryClient::transact(follow-up)", "msg": m})),
+                    }
+                }
             }
             Ok(None) => out.ev(json!({"ev": "ClientTx", "run": *run, "reverted": true, "before": before, "after": storage_dump(cl.as_ref(), &[c1], &watch_assets), "kinds": [], "novm": true})),
             Err(m) => out.ev(json!({"ev": "HostPanic", "where": "MemoryClient::transact", "msg": m})),
